@@ -21,6 +21,28 @@ def outC {n} (v : Vec (Float × Float) n) : Json :=
 def outCm {n} (v : Vec (Float × Float) n) (m : Float) : Json :=
   jObj [("re", jFs ((Vec.toList v).map Prod.fst)), ("im", jFs ((Vec.toList v).map Prod.snd)), ("margin", jF m)]
 
+/-- the transcendental primitives of `_cbrt` / the complex power at `Float` (libm) -/
+instance : HasTrig Float := ⟨Float.cos, Float.sin, Float.atan2, Float.cbrt, 3.141592653589793⟩
+
+/-- the literal `1e-7` of `loss._dep_cubic_root` -/
+def cubicEps : Float := 1e-7
+
+/-- which regime of `_dep_cubic_root` an entry falls into -/
+def cubicBranch (p q : Float) : String :=
+  if p.abs ≤ cubicEps then (if p == 0 then "p=0" else "band") else
+  let d := q * q / 4 + p * p * p / 27
+  if d < 0 then "delta<0" else if d == 0 then "delta=0" else "delta>0"
+
+/-- which `where` branch `L1MinusL2Norm.prox` takes -/
+def l1l2Branch (vamx lam b : Float) : String :=
+  if 0 < vamx then
+    if lam < vamx then "shrink-rescale" else if vamx < (1 - b) * lam then "zero" else "one-sparse"
+  else "v=0"
+
+def matOf (l : List Float) (r c : Nat) : Fin r → Fin c → Float :=
+  let a := l.toArray
+  fun i j => a.getD (i.val * c + j.val) 0
+
 def big : Float := 1.0e300
 def minL (l : List Float) : Float := l.foldl (fun a b => if b < a then b else a) big
 
@@ -61,12 +83,41 @@ def scaleOp? (j : Json) : Option (ScaleOp Float) := do
     | _ => none
   | _ => none
 
+def wArg? : String → Option WArg
+  | "none" => some .none
+  | "diag_nonneg" => some .diagNonneg
+  | "diag_negative" => some .diagNegative
+  | "not_diagonal" => some .notDiagonal
+  | _ => none
+
+def aArg? : String → Option AArg
+  | "none" => some .none
+  | "identity" => some .identity
+  | "diagonal" => some .diagonal
+  | "other_linop" => some .otherLinop
+  | "nonlinear" => some .nonlinear
+  | _ => none
+
+def guardOf? (cls : String) (w : WArg) (a : AArg) (yn : Bool) : Option Guard :=
+  match cls with
+  | "sql2loss" => some (sqL2LossGuard w a)
+  | "sql2abs" => some (absLossGuard w a yn)
+  | "sql2sqabs" => some (absLossGuard w a yn)
+  | _ => none
+
+def guardStr : Guard → String
+  | .hasProxClosed => "has_prox_closed"
+  | .hasProxCG => "has_prox_cg"
+  | .noProx => "no_prox"
+  | .valueError => "value"
+  | .typeError => "type"
+
 def handler : Handler := fun op j =>
   match op with
   | "scale_after" => do
     let s0 ← fFloat? j "scale0"
     let ops ← (← fList? j "ops").mapM scaleOp?
-    some (ok (jObj [("scale", jF (scaleAfter s0 ops))]))
+    some (ok (jObj [("scale", jF (scaleAfter s0 ops)), ("orig", jF (scaleOfOriginal s0 ops))]))
   | "lossgen" => do
     let v ← fFloats? j "v"; let y ← fFloats? j "y"; let lam ← fFloat? j "lam"; let sc ← fFloat? j "scale"
     let inner ← fStr? j "inner"
@@ -123,7 +174,8 @@ def handler : Handler := fun op j =>
     -- branch boundaries: vamx = 0, vamx = lam, vamx = (1-beta) lam, and (one-sparse branch) ties of the arg-max
     let tie := if lam < vamx then big else if vamx < (1 - b) * lam then big else topGap va
     let m := minL [vamx, (vamx - lam).abs, (vamx - (1 - b) * lam).abs, tie]
-    some (ok (outRm (l1l2Prox b (vecOf v n) lam) m))
+    some (ok (jObj [("out", jFs (Vec.toList (l1l2Prox b (vecOf v n) lam))), ("margin", jF m),
+      ("branch", Json.str (l1l2Branch vamx lam b))]))
   | "l1l2c" => do
     let re ← fFloats? j "vre"; let im ← fFloats? j "vim"; let lam ← fFloat? j "lam"; let b ← fFloat? j "beta"
     let n := re.length
@@ -207,6 +259,42 @@ def handler : Handler := fun op j =>
     let n := vre.length
     if !sameLen n [vim, w, r] then none else
     some (ok (outC (sqL2SqAbsProxC sc (vecOf w n) (cvecOf vre vim n) lam (vecOf r n))))
+  | "guard" => do
+    -- has_prox / rejection logic of the three specific losses
+    let cls ← fStr? j "cls"; let w ← fStr? j "w"; let a ← fStr? j "a"; let yn ← fNat? j "ynonneg"
+    let w ← wArg? w
+    let a ← aArg? a
+    let g ← guardOf? cls w a (yn != 0)
+    some (ok (jObj [("guard", Json.str (guardStr g))]))
+  | "cubic_root" => do
+    -- the model of `loss._dep_cubic_root` on arrays p, q
+    let p ← fFloats? j "p"; let q ← fFloats? j "q"
+    if p.length != q.length then none else
+    let r := List.zipWith (fun a b => depCubicRoot cubicEps a b) p q
+    let br := List.zipWith cubicBranch p q
+    some (ok (jObj [("r", jFs r), ("branch", Json.arr (br.map Json.str).toArray)]))
+  | "sql2sqabs_full" => do
+    let v ← fFloats? j "v"; let y ← fFloats? j "y"; let w ← fFloats? j "w"
+    let lam ← fFloat? j "lam"; let sc ← fFloat? j "scale"
+    let n := v.length
+    if !sameLen n [y, w] then none else
+    some (ok (outR (sqL2SqAbsProxFull cubicEps sc (vecOf w n) (vecOf y n) (vecOf v n) lam)))
+  | "sql2sqabs_fullc" => do
+    let vre ← fFloats? j "vre"; let vim ← fFloats? j "vim"; let y ← fFloats? j "y"; let w ← fFloats? j "w"
+    let lam ← fFloat? j "lam"; let sc ← fFloat? j "scale"
+    let n := vre.length
+    if !sameLen n [vim, y, w] then none else
+    some (ok (outC (sqL2SqAbsProxFullC cubicEps sc (vecOf w n) (vecOf y n) (cvecOf vre vim n) lam)))
+  | "nuclear_full" => do
+    -- `svdU @ diag(maximum(0, svdS - lam)) @ svdV` from the SVD factors (row-major), and `U diag(s) Vh` itself
+    let m ← fNat? j "m"; let n ← fNat? j "n"; let k ← fNat? j "k"
+    let u ← fFloats? j "u"; let sv ← fFloats? j "s"; let vh ← fFloats? j "vh"; let lam ← fFloat? j "lam"
+    if u.length != m * k || sv.length != k || vh.length != k * n then none else
+    let U := matOf u m k; let Vh := matOf vh k n; let s := vecOf sv k
+    let P := nuclearProx U s Vh lam
+    let M := usvMat U s Vh
+    let flat (A : Fin m → Fin n → Float) : List Float := (List.finRange m).flatMap fun i => (List.finRange n).map fun jj => A i jj
+    some (ok (jObj [("out", jFs (flat P)), ("usv", jFs (flat M))]))
   | _ => none
 
 def main : IO Unit := mainLoop handler
